@@ -614,7 +614,7 @@ func runC17(c *an.Ctx) {
 	})
 	// one connection, one request, returned to the pool only after a valid reply
 	decide(c, "C17-R4", fw+"(*UpstreamPlain).processConn", an.DecideCfg{
-		Dom: an.Domain{"p1.Deadline()#1": an.Bools, "p4": an.Strs(netTCP, netUDP), "dlerr": an.Bools, "writeerr": an.Bools, "readerr": an.Bools, "puterr": an.Bools},
+		Dom:    an.Domain{"p1.Deadline()#1": an.Bools, "p4": an.Strs(netTCP, netUDP), "dlerr": an.Bools, "writeerr": an.Bools, "readerr": an.Bools, "puterr": an.Bools},
 		Inline: func(f *ssa.Function) bool { return strings.HasPrefix(an.FnKey(f), fw+"(*UpstreamPlain).processConn$") },
 		OnCall: func(it *an.Interp, name string, args []an.AV) (an.AV, bool) {
 			errOr := func(k, e string) an.AV {
